@@ -247,3 +247,20 @@ Print Assumptions C12_kuchemann_offset.
 Theorem C12_kuchemann_weight : forall pi sd x, 0 <= 2 * pi * sd * x -> 0 < lam pi sd x <= 1.
 Proof. exact lam_bounds. Qed.
 Print Assumptions C12_kuchemann_weight.
+
+(* the swept section vectors a segment stores at its vortex nodes (Model/Swept.v, Proofs/SweptP.v): with the unit tangent of the lifting
+   line as span vector and a unit unswept chord direction not parallel to it, the axial vector is a unit vector orthogonal to the span
+   vector, in the plane of the two and on the chord direction's side, and the normal vector - their cross product - completes an
+   orthonormal triad; the span vector is unit wherever the gradient of the line does not vanish *)
+From MuxV Require Import Model.Swept Proofs.SweptP.
+Theorem C12_swept_section_vectors : forall (us ua0 : v3 R), vdot us us = 1 -> vdot ua0 ua0 = 1 -> Rabs (vdot us ua0) < 1 ->
+  let ua := swept_axial us ua0 in
+  let un := swept_normal ua us in
+  vdot ua ua = 1 /\ vdot un un = 1 /\ vdot us us = 1 /\
+  vdot ua us = 0 /\ vdot un ua = 0 /\ vdot un us = 0 /\
+  0 < vdot ua ua0 /\ (exists c1 c2, ua = vadd (vscale c1 ua0) (vscale c2 us)).
+Proof. exact swept_triad. Qed.
+Print Assumptions C12_swept_section_vectors.
+Theorem C12_span_vector_unit : forall g : v3 R, vdot g g <> 0 -> vdot (vdivs g (vnorm g)) (vdivs g (vnorm g)) = 1.
+Proof. exact vdivs_unit. Qed.
+Print Assumptions C12_span_vector_unit.
